@@ -19,7 +19,7 @@ def run(run):
     run.mc('MC_Model', 'MC_Model_B.cfg', env={'VERIF_LANG': 'LTiny'}, timeout=600,
            name='ModelSM attackers / defenses / extras slice (state space the round trips sample from)')
     maps_small = ['plain', 'yamlflow', 'idlike']
-    maps_all = ['plain', 'colon', 'yamlbool', 'yamlfloat', 'yamlflow', 'unicode', 'null', 'tilde', 'blank', 'newline', 'quote', 'int', 'idlike', 'idlike0']
+    maps_all = ['plain', 'colon', 'yamlbool', 'yamlfloat', 'yamlflow', 'unicode', 'null', 'tilde', 'blank', 'newline', 'quote', 'int', 'idlike', 'idlike0', 'nel']
     # a file is a behaviour: its entries are add_asset(id, name) calls in file order - repeated names (renamed by the
     # documented policy), ids in any order, id 0, negative ids; every such file of n entries, loaded and compared with ModelSM
     nf = 3 if quick else 4
